@@ -61,8 +61,17 @@ fn execute(hist: &[Call], shapes: &[Shape], dests: &[Dest; 3], complete: bool, k
             let w = Writer::new(ShapeWriter::with_shx(dests[0].clone(), dests[1].clone()), table_builder().build_with_dest(dests[2].clone()));
             let tail: Vec<&Shape> = hist.iter().filter_map(|c| if let Call::W(si) = c { Some(&shapes[*si]) } else { None }).collect();
             let rows: Vec<shapefile::dbase::Record> = (0..tail.len()).map(row).collect();
+            let rows_for_empty = row(0);
             set_epoch(1);
-            let res = bulk_pairs(w, &tail, &rows);
+            let res = if tail.is_empty() {
+                with_concrete!(&shapes[0], x => {
+                    let mut none: Vec<(_, &shapefile::dbase::Record)> = vec![(x, &rows_for_empty)];
+                    none.clear();
+                    w.write_shapes_and_records(none)
+                })
+            } else {
+                bulk_pairs(w, &tail, &rows)
+            };
             let fired = fired_in(1);
             match (&res, fired) {
                 (Ok(()), true) => problems.push(("write_shapes_and_records/swallowed".into(), J::UInt(0))),
@@ -104,7 +113,15 @@ fn execute(hist: &[Call], shapes: &[Shape], dests: &[Dest; 3], complete: bool, k
             let w = ShapeWriter::with_shx(dests[0].clone(), dests[1].clone());
             let tail: Vec<&Shape> = hist.iter().filter_map(|c| if let Call::W(si) = c { Some(&shapes[*si]) } else { None }).collect();
             set_epoch(1);
-            let res = crate::e_c09::write_tail(w, &tail);
+            let res = if tail.is_empty() {
+                with_concrete!(&shapes[0], x => {
+                    let mut none = vec![x];
+                    none.clear();
+                    w.write_shapes(none)
+                })
+            } else {
+                crate::e_c09::write_tail(w, &tail)
+            };
             let fired = fired_in(1);
             match (&res, fired) {
                 (Ok(()), true) => problems.push(("write_shapes/swallowed".into(), J::UInt(0))),
@@ -247,6 +264,9 @@ pub fn run(ctx: &Ctx) -> Report {
         vec![Call::W(0), Call::F, Call::W(1), Call::F],
         vec![Call::W(0), Call::W(1)],
         vec![Call::F, Call::W(2), Call::F],
+        vec![Call::W(3), Call::F],
+        // nothing at all: the writer is only let go (or, for the bulk routes, handed an empty collection)
+        vec![],
     ];
     if ctx.thorough {
         // all histories of length <= 5 over {W, F} (shapes cycle through the three sizes)
@@ -299,8 +319,8 @@ pub fn run(ctx: &Ctx) -> Report {
         if wk == 1 && hist.contains(&Call::F) && hi != 0 && !long {
             return; // the complete writer has no finalize; it runs the W-only projection of history 0 and the W-only histories
         }
-        if wk >= 3 && hi != 0 {
-            return; // the bulk routes run the W-only projection of history 0
+        if wk >= 3 && hi != 0 && !hist.is_empty() {
+            return; // the bulk routes run the W-only projection of history 0, and the empty history
         }
         if cfg!(miri) && wk >= 2 && hi != 0 {
             return;
@@ -311,6 +331,8 @@ pub fn run(ctx: &Ctx) -> Report {
             gen::shape_exact(t, &mut r, &Cfg::plain(1, 2), 1, 2),
             gen::shape_exact(t, &mut r, &Cfg::plain(2, 3), 2, 3),
             gen::shape_exact(t, &mut r, &Cfg::plain(3, 4), 3, 4),
+            // a part of 40 vertices (history 4 only): failures far into one coordinate array
+            gen::shape_exact(t, &mut r, &Cfg::plain(1, 2), 1, 40),
         ];
         let wname = ["ShapeWriter", "Writer", "ShapeWriter::new(no index)", "ShapeWriter+write_shapes(bulk)", "Writer+write_shapes_and_records(bulk)"][wk as usize];
         // undisturbed run: golden bytes and the number of operations per destination
@@ -335,22 +357,28 @@ pub fn run(ctx: &Ctx) -> Report {
                 if cfg!(miri) && (k + di) % 5 != 0 {
                     continue;
                 }
-                let is_flush = matches!(golden_ops.get(k), Some((_, Op::Flush)));
-                for mode in 0..3u8 {
-                    // mode 2: a flush that keeps failing with ErrorKind::Interrupted (a persistent
+                let is_flush = matches!(golden_ops.get(k), Some((_, Op::Flush)) | Some((_, Op::Seek(_))));
+                let is_seek = matches!(golden_ops.get(k), Some((_, Op::Seek(_))));
+                for mode in 0..4u8 {
+                    // mode 2: a flush or a seek that keeps failing with ErrorKind::Interrupted (a persistent
                     // failure whatever its kind: the call must not report success)
                     if mode == 2 && !is_flush {
                         continue;
                     }
-                    let persistent = mode >= 1;
-                    let case = format!("c12:t{}:h{}:{}:d{}:k{}:{}", t, hi, wname, di, k, ["oneshot", "persistent", "persistent-interrupted-flush"][mode as usize]);
+                    // mode 3: ONE seek failing with ErrorKind::Interrupted: nothing retries a seek, the
+                    // position is unknown afterwards, so the call in progress has to report it
+                    if mode == 3 && !is_seek {
+                        continue;
+                    }
+                    let persistent = mode == 1 || mode == 2;
+                    let case = format!("c12:t{}:h{}:{}:d{}:k{}:{}", t, hi, wname, di, k, ["oneshot", "persistent", "persistent-interrupted-flush", "oneshot-interrupted-seek"][mode as usize]);
                     if !ctx.want(&case) {
                         continue;
                     }
                     let dests = [Dest::new(), Dest::new(), Dest::new()];
                     // the kind of the injected error rotates with the fault point (Other, WouldBlock,
                     // TimedOut, BrokenPipe, PermissionDenied, WriteZero, UnexpectedEof)
-                    dests[di].0.borrow_mut().fault = crate::iomon::FaultPlan { at: Some(k), persistent, interrupted_flush: mode == 2, error_kind: (k % 7) as u8 };
+                    dests[di].0.borrow_mut().fault = crate::iomon::FaultPlan { at: Some(k), persistent, interrupted_flush: mode >= 2, error_kind: (k % 7) as u8 };
                     let stay_broken = persistent && k % 2 == 1;
                     if stay_broken {
                         rep.count("writers_let_go_while_the_destination_was_still_failing", 1);
